@@ -5,6 +5,8 @@ request, the environment and what the implementation returned / did (parsed from
 import PasskeyVerif.Driver.AuthText
 import PasskeyVerif.Model.Client
 import PasskeyVerif.Spec.Auth
+import PasskeyVerif.Base.Json
+import PasskeyVerif.Base.P256
 namespace PasskeyVerif.Spec.Client
 open PasskeyVerif PasskeyVerif.Auth PasskeyVerif.Client PasskeyVerif.Driver.AuthText
 open PasskeyVerif.AuthData (Bytes)
@@ -153,20 +155,208 @@ def c11_assert (pre : List PkSnap) (o : CObs AuthOk) : Option String :=
     | some p => if r.userHandle == p.userHandle then none else some "user-handle-returned-not-iff-stored"
     | none => none
 
-def verdictReg (prop : String) (_cfg : Cfg) (kind : StoreKind) (uv : UvCfg) (_origin : RpId.Origin) (_originStr : String)
-    (req : RegisterReq) (_mode : ClientDataMode) (_pre : List PkSnap) (impl : String) : String :=
+/-! ### what a relying party reads (WebAuthn §6.1 authenticator data, §5.8.1 client data) -/
+
+structure RpAcd where
+  aaguid : Bytes
+  credId : Bytes
+  key : Cbor.Item
+  deriving Repr
+
+structure RpView where
+  rpIdHash : Bytes
+  flags : UInt8
+  counter : Nat
+  acd : Option RpAcd
+  rest : Bytes
+  deriving Repr
+
+def rpParseAuthData (ad : Bytes) : Option RpView :=
+  if ad.length < 37 then none else
+  let hash := ad.take 32
+  let flags := ad.getD 32 0
+  let counter := Cbor.ofBe ((ad.drop 33).take 4)
+  let rest := ad.drop 37
+  if flags &&& 0x40 != 0 then
+    if rest.length < 18 then none else
+    let l := Cbor.ofBe ((rest.drop 16).take 2)
+    let r2 := rest.drop 18
+    if r2.length < l then none else
+    match Cbor.decode1 (r2.drop l) with
+    | some (key, r3) => some ⟨hash, flags, counter, some ⟨rest.take 16, r2.take l, key⟩, r3⟩
+    | none => none
+  else some ⟨hash, flags, counter, none, rest⟩
+
+/-- an ES256 COSE public key: exactly kty=EC2, alg=-7, crv=P-256, x, y (32 bytes each) — in
+particular no private member -/
+def rpCoseEs256 (k : Cbor.Item) : Option (Bytes × Bytes) :=
+  match k with
+  | .map kvs =>
+    match Cbor.mapGetInt kvs 1, Cbor.mapGetInt kvs 3, Cbor.mapGetInt kvs (-1), Cbor.mapGetInt kvs (-2), Cbor.mapGetInt kvs (-3) with
+    | some (.uint 2), some (.nint 6), some (.uint 1), some (.bytes x), some (.bytes y) =>
+      if kvs.length == 5 && x.length == 32 && y.length == 32 then some (x, y) else none
+    | _, _, _, _, _ => none
+  | _ => none
+
+def isUrlChar (c : Char) : Bool := c.isAlphanum || c = '-' || c = '_'
+
+/-- client data as the relying party checks it: a JSON object whose `type`, `challenge` (unpadded
+base64url of the request's challenge) and `origin` members are as expected, each present once -/
+def rpClientData (cdj : Bytes) (ty : String) (challenge : Bytes) (origin : String) : Option String :=
+  match (utf8Str cdj).bind Json.parse with
+  | none => some "client-data-not-json"
+  | some j =>
+    if j.count "type" != 1 || j.count "challenge" != 1 || j.count "origin" != 1 then some "client-data-member-missing-or-duplicated"
+    else if (j.get? "type").bind Json.Json.str? != some ty then some "client-data-type"
+    else match (j.get? "challenge").bind Json.Json.str? with
+      | none => some "client-data-challenge"
+      | some c =>
+        if !(c.toList.all isUrlChar) || Base64.decodeLenient c != some challenge || c != Base64.encodeUrl challenge then some "client-data-challenge-not-unpadded-base64url-of-the-request-challenge"
+        else if (j.get? "origin").bind Json.Json.str? != some origin then some "client-data-origin"
+        else match j.get? "crossOrigin" with
+          | some (.bool true) => some "client-data-cross-origin-true"
+          | _ => none
+
+def hostOf (o : RpId.Origin) : Option Psl.Str := match o with | .web _ d => d | .android h => some h
+def effectiveRp (o : RpId.Origin) (rp : Option Psl.Str) : Option Bytes := (rp.orElse (fun _ => hostOf o)).map (·.map UInt8.ofNat)
+
+def spkiP256Header : Bytes :=
+  [0x30, 0x59, 0x30, 0x13, 0x06, 0x07, 0x2a, 0x86, 0x48, 0xce, 0x3d, 0x02, 0x01, 0x06, 0x08, 0x2a, 0x86, 0x48,
+   0xce, 0x3d, 0x03, 0x01, 0x07, 0x03, 0x42, 0x00, 0x04]
+
+/-- the "none" attestation object, read with the CBOR decoder -/
+def rpAttestation (att : Bytes) : Option (Bytes × Bytes × Cbor.Item) :=
+  match Cbor.decode1 att with
+  | some (.map kvs, []) =>
+    match Cbor.mapGetText kvs "fmt".toUTF8.toList, Cbor.mapGetText kvs "attStmt".toUTF8.toList, Cbor.mapGetText kvs "authData".toUTF8.toList with
+    | some (.text f), some st, some (.bytes ad) => some (f, ad, st)
+    | _, _, _ => none
+  | _ => none
+
+/-! ### C02 — registration returns a credential a standard relying party can verify -/
+
+/-- the algorithm the statement asks for: first entry of the preference list (empty = WebAuthn defaults
+ES256, RS256) that the authenticator supports -/
+def expectedAlg (cfg : Cfg) (algs : List Int) : Option Int :=
+  (if algs.isEmpty then [-7, -257] else algs).find? (fun a => cfg.algs.any (· == a))
+
+def c02_register (cfg : Cfg) (origin : RpId.Origin) (originStr : String) (req : RegisterReq) (mode : ClientDataMode)
+    (draws : Option Draws) (pre : List PkSnap) (o : CObs RegOk) : Option String :=
+  let saves := o.trace.filter Auth.Spec.isEffect
+  match o.res with
+  | .panic => some "panic"
+  | .err _ =>
+    -- a failed registration creates nothing
+    if !saves.isEmpty || o.store != pre then some "failed-registration-changed-the-store" else none
+  | .ok r =>
+    match expectedAlg cfg req.algs with
+    | none => some "registered-although-no-listed-algorithm-is-supported"
+    | some alg =>
+    match effectiveRp origin req.rpId with
+    | none => some "no-effective-rp-id"
+    | some rp =>
+    match rpClientData r.clientDataJson "webauthn.create" req.challenge originStr with
+    | some f => some f
+    | none =>
+    match rpAttestation r.attObj with
+    | none => some "attestation-object-unreadable"
+    | some (fmt, adIn, stmt) =>
+    if fmt != "none".toUTF8.toList || stmt != .map [] then some "attestation-not-none" else
+    if adIn != r.authData then some "authenticator-data-inside-and-outside-attestation-object-differ" else
+    match rpParseAuthData r.authData with
+    | none => some "authenticator-data-unreadable"
+    | some v =>
+    if v.rpIdHash != Sha256.sha256 rp then some "rp-id-hash-is-not-sha256-of-effective-rp-id" else
+    match v.acd with
+    | none => some "no-attested-credential-data"
+    | some acd =>
+    if acd.credId != r.rawId then some "attested-credential-id-differs-from-raw-id" else
+    if r.id != Base64.encodeUrl r.rawId then some "id-is-not-base64url-of-raw-id" else
+    match rpCoseEs256 acd.key with
+    | none => some "attested-key-is-not-a-bare-es256-public-key"
+    | some (x, y) =>
+    if !P256.validPublic x y then some "public-key-not-a-valid-p256-point" else
+    if r.publicKey != some (spkiP256Header ++ x ++ y) then some "der-public-key-differs-from-cose-key" else
+    if r.alg != alg || alg != -7 then some "reported-algorithm-not-the-first-supported-entry" else
+    -- exactly one credential added, with the matching private key, the effective RP ID, a fresh id of the configured length
+    let added := o.store.filter (fun p => !pre.any (fun q => q.credId == p.credId))
+    let kept := pre.all (fun q => o.store.any (fun p => p == q))
+    match added with
+    | [p] =>
+      if !kept || o.store.length != pre.length + 1 then some "store-not-previous-plus-one-credential" else
+      if p.credId != r.rawId then some "stored-credential-id-differs-from-returned-id" else
+      if p.rpId != rp then some "stored-credential-not-bound-to-effective-rp-id" else
+      if p.x != x then some "stored-key-differs-from-returned-public-key" else
+      if p.credId.length != cfg.credIdLen then some "credential-id-length-not-as-configured" else
+      match draws with
+      | some d =>
+        if d.credId != r.rawId || d.key.x != x || d.key.y != y then some "saved-passkey-differs-from-returned-credential"
+        else if !P256.keyPairMatches d.key.d x y then some "stored-private-key-does-not-match-returned-public-key"
+        else none
+      | none => some "nothing-was-saved"
+    | _ => some "not-exactly-one-credential-added"
+
+/-! ### C03 — authentication returns a signature that verifies and is bound to the ceremony -/
+
+def eligible (pre : List Passkey) (rp : Bytes) (allow : Option (List Bytes)) : List Passkey :=
+  pre.filter (fun p => p.rpId == rp && (match allow with
+    | some l => l.isEmpty || l.any (· == p.credId)
+    | none => true))
+
+def c03_authenticate (uv : UvCfg) (origin : RpId.Origin) (originStr : String) (req : AuthReq) (mode : ClientDataMode)
+    (pre : List Passkey) (o : CObs AuthOk) : Option String :=
+  match o.res with
+  | .panic => some "panic"
+  | .err name =>
+    match effectiveRp origin req.rpId with
+    | none => none
+    | some rp =>
+      -- the user consents but no eligible credential exists: credential-not-found
+      let uvAsked := req.userVerification != .discouraged
+      let consents := (match uv.answer with | .ok (p, v) => p && (!uvAsked || v) | .error _ => false) && (!uvAsked || uv.verification == some true)
+      if consents && (eligible pre rp req.allow).isEmpty && !name.startsWith "rp." && name != "CredentialNotFound"
+          && name != "NotSupportedError" && name != "SyntaxError" && name != "ValidationError" then
+        some "no-eligible-credential-but-not-credential-not-found"
+      else none
+  | .ok r =>
+    match effectiveRp origin req.rpId with
+    | none => some "no-effective-rp-id"
+    | some rp =>
+    match rpClientData r.clientDataJson "webauthn.get" req.challenge originStr with
+    | some f => some f
+    | none =>
+    match rpParseAuthData r.authData with
+    | none => some "authenticator-data-unreadable"
+    | some v =>
+    if v.rpIdHash != Sha256.sha256 rp then some "rp-id-hash-is-not-sha256-of-effective-rp-id" else
+    if v.acd.isSome || v.flags &&& 0x40 != 0 then some "attested-credential-data-in-assertion" else
+    if r.id != Base64.encodeUrl r.rawId then some "id-is-not-base64url-of-raw-id" else
+    match pre.find? (fun p => p.credId == r.rawId) with
+    | none => some "credential-id-names-no-registered-credential"
+    | some p =>
+    if p.rpId != rp then some "credential-registered-for-another-rp" else
+    if r.userHandle != p.userHandle then some "user-handle-is-not-the-stored-one" else
+    let hash := match mode with | .customHash h => h | _ => Sha256.sha256 r.clientDataJson
+    if !P256.keyPairMatches p.key.d p.key.x p.key.y then some "stored-key-pair-inconsistent" else
+    if !P256.verifyDer p.key.x p.key.y (r.authData ++ hash) r.signature then some "signature-does-not-verify-over-authenticator-data-and-client-data-hash"
+    else none
+
+def verdictReg (prop : String) (cfg : Cfg) (kind : StoreKind) (uv : UvCfg) (origin : RpId.Origin) (originStr : String)
+    (req : RegisterReq) (mode : ClientDataMode) (draws : Option Draws) (pre : List PkSnap) (impl : String) : String :=
   match parseRegObs impl with
   | none => "fail:unparsable-or-crashed"
   | some o =>
     if prop = "C11" then (match c11_register kind uv req o with | none => "ok" | some f => "fail:" ++ f)
+    else if prop = "C02" then (match c02_register cfg origin originStr req mode draws pre o with | none => "ok" | some f => "fail:" ++ f)
     else "na"
 
-def verdictAuth (prop : String) (_cfg : Cfg) (_kind : StoreKind) (_uv : UvCfg) (_origin : RpId.Origin) (_originStr : String)
-    (_req : AuthReq) (_mode : ClientDataMode) (pre : List PkSnap) (_preItems : List Passkey) (impl : String) : String :=
+def verdictAuth (prop : String) (_cfg : Cfg) (_kind : StoreKind) (uv : UvCfg) (origin : RpId.Origin) (originStr : String)
+    (req : AuthReq) (mode : ClientDataMode) (pre : List PkSnap) (preItems : List Passkey) (impl : String) : String :=
   match parseAuthObs impl with
   | none => "fail:unparsable-or-crashed"
   | some o =>
     if prop = "C11" then (match c11_assert pre o with | none => "ok" | some f => "fail:" ++ f)
+    else if prop = "C03" then (match c03_authenticate uv origin originStr req mode preItems o with | none => "ok" | some f => "fail:" ++ f)
     else "na"
 
 end PasskeyVerif.Spec.Client
